@@ -1229,6 +1229,14 @@ fn drain_array<'a>(it: impl Iterator<Item = sonic_rs::Result<LazyValue<'a>>>, ba
     }
     v
 }
+/// a member name as handed out by the subject: it claims to be a `str`, and when it is not
+/// (a decoder that wrote an overlong or truncated sequence) the report must still be printable
+fn subject_key(k: &str) -> String {
+    match std::str::from_utf8(k.as_bytes()) {
+        Ok(s) => s.to_string(),
+        Err(_) => format!("<not UTF-8: {:02x?}>", k.as_bytes()),
+    }
+}
 fn drain_object<'a>(
     it: impl Iterator<Item = sonic_rs::Result<(std::borrow::Cow<'a, str>, LazyValue<'a>)>>,
     base: &[u8],
@@ -1243,7 +1251,7 @@ fn drain_object<'a>(
             Ok((k, lv)) => {
                 // the value lies behind its key and the colon
                 let (a, b) = locate(lv.as_raw_str(), base, &mut from, hints);
-                Item::Entry(k.to_string(), a, b)
+                Item::Entry(subject_key(&k), a, b)
             }
             Err(_) => Item::Error,
         }));
@@ -1563,6 +1571,23 @@ pub fn families_c12(tier: Tier) -> Vec<Family> {
         }
         v.push(Family::of_vec("corpus-files", inputs, |d, ctx| check_iter(ctx, d, false)));
     }
+    // every \\uXXXX escape (all 65536 values; a surrogate is completed to a pair) as a whole key,
+    // inside a key, and as an element: the decoded member name crosses every UTF-8 length class
+    v.push(Family::new("every-u-escape-as-key", 0x10000, move |idx, ctx| {
+        let cp = idx as u32;
+        let esc = |c: u32| if cp & 1 == 0 { format!("\\u{:04x}", c) } else { format!("\\u{:04X}", c) };
+        let e = if (0xD800..0xDC00).contains(&cp) {
+            format!("{}{}", esc(cp), esc(0xDC00 + (cp & 0x3ff)))
+        } else if (0xDC00..0xE000).contains(&cp) {
+            format!("{}{}", esc(0xD800 + ((cp * 7) & 0x3ff)), esc(cp))
+        } else {
+            esc(cp)
+        };
+        let d = format!("{{\"{e}\":1,\"p{e}q\":[\"{e}\"]}}");
+        check_iter(ctx, d.as_bytes(), false);
+        let d = format!("[\"{e}\",{{\"{e}{e}\":2}}]");
+        check_iter(ctx, d.as_bytes(), false);
+    }));
     // B11 string bodies as element and as key
     {
         let k = gen::B11.len() as u64;
